@@ -66,7 +66,7 @@ v = [x for x in one_vector("MC_Tables.tla", {"Part": "import", "MaxDims": 2, "Ma
 expect_problem("tables", replay_tables.run_vector, v, lambda b: b["result"][0].__setitem__(1, b["result"][0][1] + 1))
 v = [x for x in one_vector("MC_Export.tla", {"Part": "sankey", "Schemes": {1}, "Emit": True}, ["EmitInv"]) if x["links"]][0]
 expect_problem("export", replay_export.run_vector, v, lambda b: b["links"][0].__setitem__(3, b["links"][0][3] + 1))
-v = [x for x in one_vector("MC_StockObject.tla", {"MCVariant": "invalidating", "Depth": 3, "NDrivers": 2, "Emit": True}, ["EmitInv"])
+v = [x for x in one_vector("MC_StockObject.tla", {"MCVariant": "invalidating", "Depth": 3, "NDrivers": 2, "NPrms": 2, "Emit": True}, ["EmitInv"])
      if [s["op"] for s in x["hist"]] == ["set_prms", "compute", "set_driver"]]
 v = v[0]
 v["index"] = 0
@@ -114,7 +114,7 @@ expect_tlc_violation("duplicates not refused", "MC_Tables.tla", {"Part": "import
 expect_tlc_violation("union that reorders", "MC_DimSets.tla", {"Scenario": "pairs", "Depth": 1, "MaxLen": 2, "Alphabet": {"A", "B", "C"}, "Emit": False,
                                                               **{f"{x}{i}": "" for x in "ST" for i in (1, 2, 3)}},
                      "Prop_Laws", ("DimSets.tla", "Union(s, t) == s \\o SelectSeq(t, LAMBDA d : ~HasLetter(s, d))", "Union(s, t) == SelectSeq(t, LAMBDA d : ~HasLetter(s, d)) \\o s"))
-res = tlcrun.run_tlc("MC_StockObject.tla", tlcrun.cfg_text(constants={"MCVariant": "stale", "Depth": 4, "NDrivers": 2, "Emit": False}, invariants=["Prop_C17"]), workers=2)
+res = tlcrun.run_tlc("MC_StockObject.tla", tlcrun.cfg_text(constants={"MCVariant": "stale", "Depth": 4, "NDrivers": 2, "NPrms": 2, "Emit": False}, invariants=["Prop_C17"]), workers=2)
 print(f"  {'stale-cache stock object':34s} -> {res.violation or 'NO VIOLATION (vacuous!)'}")
 if not res.violation:
     fails.append("stale")
